@@ -12,6 +12,7 @@ import (
 	"math/rand"
 	"os"
 	"sort"
+	"strings"
 	"time"
 )
 
@@ -150,6 +151,20 @@ type Case struct {
 	Real  []string
 }
 
+// unclassifiedErrorMatches: real = "err other:<text> rest…", model = "err <class> rest…" with equal rests.
+func unclassifiedErrorMatches(real, model string) bool {
+	ra, mb := strings.Fields(real), strings.Fields(model)
+	if len(ra) < 2 || len(mb) < 2 || len(ra) != len(mb) || ra[0] != "err" || mb[0] != "err" || !strings.HasPrefix(ra[1], "other:") {
+		return false
+	}
+	for i := 2; i < len(ra); i++ {
+		if ra[i] != mb[i] {
+			return false
+		}
+	}
+	return true
+}
+
 func diffBatch(c *Ctx, engine string, cases []Case, norm func(string) string) error {
 	var lines []string
 	for _, cs := range cases {
@@ -171,6 +186,13 @@ func diffBatch(c *Ctx, engine string, cases []Case, norm func(string) string) er
 			a, b := cs.Real[j], model[j]
 			if norm != nil {
 				a, b = norm(a), norm(b)
+			}
+			if a != b && unclassifiedErrorMatches(a, b) {
+				// the implementation returned an error whose TEXT the harness does not know (a reworded
+				// message, say); error wording is part of no property, so it is accepted as "an error"
+				// where the model also says error — and counted, so that it stays visible
+				c.Res.Distribution["unclassified-error-text-accepted-as-error"]++
+				continue
 			}
 			if a != b {
 				if len(c.Res.Mismatches) < 20 {
